@@ -182,7 +182,8 @@ def oracle(world, case, conf, atts, dropped, accepted, res):
                 fail('value-differs:' + name, 'variable %s interpolates to %r, documented value %r' % (name, line[:80], (sl[k] if k < len(sl) else b'')[:80]))
             break
     # rdomain: successive references distinct, cycling through 11..255
-    if final['rc'] == 0:
+    overridden = any(bytes.fromhex(v).startswith(b'rdomain=') for v in case.get('vars', []))      # -v rdomain=N replaces the counter by design
+    if final['rc'] == 0 and not overridden:
         for l in final['out'].split(b'\n'):
             if l.startswith(b'rd='):
                 vals = [int(x) for x in l[3:].split()]
